@@ -165,7 +165,10 @@ func (g *Gun) shootStep(step *Call, sample *netsample.Sample, ammoName string, t
 	stepVars["preprocessor"] = preprocVars
 
 	// Template
-	payloadJSON, err := g.templ.Apply(step.Payload, step.Metadata, templateVars, ammoName, step.Name)
+	// step.Metadata is shared by every clone of the ammo, i.e. by all instances:
+	// render the templates into a private copy and leave the definition untouched.
+	stepMetadata := maps.Clone(step.Metadata)
+	payloadJSON, err := g.templ.Apply(step.Payload, stepMetadata, templateVars, ammoName, step.Name)
 	if err != nil {
 		return fmt.Errorf("%s templater.Apply %w", op, err)
 	}
@@ -194,7 +197,7 @@ func (g *Gun) shootStep(step *Call, sample *netsample.Sample, ammoName string, t
 
 	ctx, cancel := context.WithTimeout(context.Background(), timeout)
 	defer cancel()
-	ctx = metadata.NewOutgoingContext(ctx, metadata.New(step.Metadata))
+	ctx = metadata.NewOutgoingContext(ctx, metadata.New(stepMetadata))
 	out, grpcErr := g.gun.Stub.InvokeRpc(ctx, &method, message)
 	code = grpcgun.ConvertGrpcStatus(grpcErr)
 	sample.SetProtoCode(code) // for setRTT inside
@@ -203,7 +206,7 @@ func (g *Gun) shootStep(step *Call, sample *netsample.Sample, ammoName string, t
 		g.gun.GunDeps.Log.Error("response error", zap.Error(err))
 	}
 
-	g.gun.Answ(&method, message, step.Metadata, out, grpcErr, code)
+	g.gun.Answ(&method, message, stepMetadata, out, grpcErr, code)
 
 	for _, postProcessor := range step.Postprocessors {
 		pp, err := postProcessor.Process(out, code)
